@@ -3,7 +3,7 @@ SPECIFICATION Spec
 CONSTANTS
   Types = {"Q", "I", "F", "AQ", "AI", "TQ", "SQ", "SA", "TA"}
   Origins = {"owned", "borrowed", "local"}
-  MutOps = {"append", "extend", "insert", "pop", "popuse", "remove", "clear", "sort", "reverse", "setitem", "setalias", "delitem", "iadd", "imul1", "imul2"}
+  MutOps = {"append", "extend", "insert", "pop", "popuse", "remove", "clear", "sort", "reverse", "setitem", "setalias", "delitem", "iadd", "imul1", "imul2", "reinit"}
   MaxOps = 2
   Emit = TRUE
 INVARIANT LinearOnce
